@@ -69,6 +69,15 @@ def specDelete (namex : Name) (mustExist mustBeDir mustBeFile : Bool) (m : AMap 
     else if mustBeFile && old.kind = .dir then .error .wrongType
     else .ok (m.del (norm namex), some old)
 
+/-- the retry loop on name maps -/
+def specRetryLoop {R : Type} (modifier : Bool → AMap Name C → Except Err R) (first : Bool)
+    (m : AMap Name C) : List (AMap Name C) → Except Err R
+  | [] => modifier first m
+  | m' :: more =>
+    match modifier first m with
+    | .error e => .error e
+    | .ok _ => specRetryLoop modifier false m' more
+
 def specSetMetadata (namex : Name) (md : Meta) (now : Nat) (m : AMap Name C) : Except Err (AMap Name C) :=
   match m (norm namex) with
   | none => .error .noSuchChild
